@@ -9,13 +9,23 @@ import gen_args
 PROPERTIES = ["C20"]
 MANIFEST = {
     "C20": {
-        "technique": "Lean 4 proof (checked-memory model of Process::Arguments refined to a declarative getopt_long-convention parser; "
+        "technique": "Lean 4 proof + TIE BY TRANSLATION (tools/gen_args.py translates the current bodies of Process::Arguments::nextChar / "
+                     "read, the Arguments constructor and Private::splitCommandLine, C++ subset -> Lean, on every run; PropsCode.lean proves the "
+                     "translated functions equal to the model's for every table / state / command line) + Lean 4 proof about the model "
+                     "(checked-memory model of Process::Arguments refined to a declarative getopt_long-convention parser; "
                      "model of splitCommandLine refined to a reference tokenizer, termination on every buffer, expressibility of every "
                      "argument vector; argv/environment handed to execvpe; descriptor tables of open()) + kernel-model-level theorems "
                      "(unconstrained pipe system for arbitrary parent/child programs, documented protocol against arbitrary child programs, "
                      "wait/interrupt/join over a process table with pid reuse) + differential correspondence model vs real Process.cpp + tests against the "
                      "real kernel with a helper child",
-        "text": "PROVED about the model of the code, for all inputs: option tables x argument vectors (result sequence = getopt "
+        "text": "TRANSLATED from the current sources and proved equal to the model (PropsCode.lean): Arguments::nextChar, Arguments::read "
+                "(for every option table, every model state and every object representing it, out-parameters and locals arbitrary: same "
+                "fault / same return value / same (character, argument) / objects representing the same new state), the constructor (every "
+                "argv incl. argc = 0), the while(read) loop of the translated code = getopt conventions for every table and argv "
+                "(translated_read_sequence_eq_getopt); splitCommandLine (every terminated buffer, any prior contents of the output list: "
+                "appends exactly the model's = the reference tokenizer's words).  A change of these C++ bodies changes the generated Lean "
+                "definitions and the equality proofs fail; a construct outside the translated subset is refused (broken tie).  "
+                "PROVED about the model of the code, for all inputs: option tables x argument vectors (result sequence = getopt "
                 "conventions, no read outside the argument strings / option names, termination); command lines (tokenizer refinement, "
                 "termination on every buffer, every argument vector is expressible by the quoting rules and read back exactly); what "
                 "open/start pass to execvpe (file, argv, environment) and which pipe ends parent and child hold afterwards (also when "
@@ -40,8 +50,15 @@ MANIFEST = {
                 "Process::wait/interrupt with real children and an interrupter thread, Process::exit, the 2-argument read, environ entries "
                 "without '=', failing pipe()/vfork()/waitpid(), the 3-argument read under an interposed select (time-outs, EINTR, both "
                 "descriptor orders), daemonize in a forked copy; the getopt reference is cross-checked against Python's getopt.gnu_getopt on their common class.",
-        "note": "Trusted: Lean kernel + standard axioms; hand translation of Process.cpp (POSIX branch) into the model, validated by the "
-                "correspondence run, not proved; checked-memory abstraction (one block per argv word / option name, the option table holds "
+        "note": "Trusted: Lean kernel + standard axioms; the semantics tools/gen_args.py gives the translated C++ subset (CSem.lean: checked "
+                "blocks, pointer = null | (block, offset), char** / const Option* as indices, operands left to right, &&/||/?: as control "
+                "flow, loops over fuel) and its parser; String::length / find / compare(...)==0 / attach / append / clear / isEmpty and "
+                "List::append are primitives modelled by hand (strlenL, findL, cmpN, slice), not translated; the translated-code theorems "
+                "assume argv bytes < 256 (needed where the code narrows int to char) and compare splitCommandLine on terminated buffers only.  "
+                "Everything of Process.cpp OTHER than nextChar / read / the Arguments constructor / splitCommandLine (start, open, join, kill, "
+                "read, write, close, wait, interrupt, daemonize, environment) is still a HAND translation into the model, validated by the "
+                "correspondence run, not proved.  A harmless restructuring of a translated body breaks the equality proof (reported as "
+                "'proof obligations / model tie no longer check' without failing input).  Checked-memory abstraction (one block per argv word / option name, the option table holds "
                 "null or NUL-free terminated names); Map iteration = ascending key order (C01).  'getopt rules' means the "
                 "reference parser of Spec.lean: long options match exactly (no GNU abbreviations), non-options are returned in order as "
                 "character 0.  PARTIAL in the proof sense (process_delivery_partial, OPEN block in Props.lean): vfork/execvpe/pipe/dup2/"
@@ -1008,6 +1025,10 @@ f"Round 2: sel: {len(sl)} runs of read(buf, len, streams) under a scripted selec
 
 
 ASSUMPTIONS = [
+    "tie by translation (tools/gen_args.py -> Nstd/Generated/ArgsCode.lean, proved equal to the model in PropsCode.lean): the semantics given to "
+    "the translated C++ subset (CSem.lean: checked blocks, null | (block, offset) pointers, char** / const Option* as indices, operands "
+    "evaluated left to right, short-circuit operators and ?: as control flow, loops over fuel, char compared as bytes, int <- char sign-extends); "
+    "String::length/find/compare/attach/append/clear/isEmpty and List::append are hand-modelled primitives; argv bytes < 256",
     "memory model of the Lean model: every argv word and every option name is a separate block holding the bytes and the terminator; reads are checked against its extent",
     "the option table is an array of valid entries (names are null or C strings)",
     "Map<String,String> iterates in ascending key order (property C01)",
